@@ -295,7 +295,7 @@ func abstractObs(w *world, bc *core.Blockchain) string {
 	// whitelisted fees: what the cache answers (getWhitelistFeeContracts) and what storage holds
 	fmt.Fprintf(&sb, " wlc=%s wls=%s", joinOrDash(whitelistCached(w, bc)), joinOrDash(whitelistStored(w, bc)))
 	// cached components: what the cache answers / what storage holds
-	fmt.Fprintf(&sb, " set=%s roles=%s mgmt=%s gpb=%s", settingsObs(w, bc), rolesObs(w, bc), mgmtObs(w, bc), gpbObs(w, bc))
+	fmt.Fprintf(&sb, " set=%s roles=%s mgmt=%s mdf=%s gpb=%s", settingsObs(w, bc), rolesObs(w, bc), mgmtObs(w, bc), mdfObs(w, bc), gpbObs(w, bc))
 	// policy (through the cache getters)
 	pico := bc.GetBaseExecFee() // picoGAS units after Faun
 	fmt.Fprintf(&sb, " fpb=%d eff=%d sp=%d", bc.FeePerByte(), pico, bc.GetStoragePrice())
@@ -585,6 +585,12 @@ func mgmtObs(w *world, bc *core.Blockchain) string {
 		out = append(out, fmt.Sprintf("%s=%s/%s", t, cached, stored))
 	}
 	return joinOrDash(out) + " next=" + storedInt(bc, nativeids.ContractManagement, []byte{15})
+}
+
+// mdfObs: ContractManagement.getMinimumDeploymentFee (no cache: re-reads storage through dao.GetInt) / the stored value.
+func mdfObs(w *world, bc *core.Blockchain) string {
+	g := invokeInts(w, bc, []chainx.Call{{Hash: nativehashes.ContractManagement, Method: "getMinimumDeploymentFee"}})[0]
+	return g + "/" + storedInt(bc, nativeids.ContractManagement, []byte{20})
 }
 
 // gpbObs: NEO.getGasPerBlock (cache, for the next block) / the stored records index:value.
